@@ -114,7 +114,7 @@ def main():
         "guard":"verif-hooks",
         "enable":"cargo feature `verif-hooks` of the alpenglow crate, enabled by /verif/sim/Cargo.toml (path dependency on /repo)",
         "baseline_off_cmd":"cd /repo && cargo test --workspace --no-fail-fast --offline",
-        "source_commits":[h.split()[0] for h in hooks],
+        "source_commits":[h.split()[0] for h in hooks if not h.split(" ",1)[1].startswith("fix:")],
         "add_only":True,
       },
       "engines":[{"name":"agsim","path":"/verif/sim","serves_properties":sorted(CLAIMED),"kind_free_text":"deterministic simulator: seeded decision log, simulated transport/clock, fault injector, Byzantine actors, reference-model oracles, ddmin replay minimiser"}],
